@@ -66,9 +66,9 @@ theorem literal_block_break_blind (ind : Nat) (hind : ind ≠ 0) (tail : Str) (h
   have hlen : ls1.length = ls2.length := by
     have := congrArg List.length hsame
     simpa using this
-  rcases literal_lines_any_break ind hind tail ht1 ht2 ls1 l b1 a s1 f1 hl hls hk1 hc1 hi1 with ⟨p, hp⟩ | ⟨u1, bl1, e1, _, i1, c1, n1⟩
+  rcases literal_lines_any_break ind hind tail ht1 ht2 ls1 l b1 a s1 f1 hl hls hk1 hc1 hi1 with ⟨p, hp⟩ | ⟨u1, bl1, e1, _, i1, c1, n1, _⟩
   · rw [hp] at h1; cases h1
-  rcases literal_lines_any_break ind hind tail ht1 ht2 ls2 l b2 a s2 f2 hl hls2 hk2 hc2 hi2 with ⟨p, hp⟩ | ⟨u2, bl2, e2, _, i2, c2, n2⟩
+  rcases literal_lines_any_break ind hind tail ht1 ht2 ls2 l b2 a s2 f2 hl hls2 hk2 hc2 hi2 with ⟨p, hp⟩ | ⟨u2, bl2, e2, _, i2, c2, n2, _⟩
   · rw [hp] at h2; cases h2
   rw [e1] at h1; rw [e2] at h2
   cases h1; cases h2
@@ -122,11 +122,11 @@ theorem literal_block_token_break_blind (sm1 sm2 : Marker) (hd : Hdr) (ind : Nat
   have hlen : ls1.length = ls2.length := by
     have := congrArg List.length hsame
     simpa using this
-  rcases literal_block_token sm1 hd a1 ind hind tail ht1 ht2 ls1 l b1 hl hl1 hls u1 u1.mark.line u1.mark.col u1.indent hI
-      ⟨hk1, hi1, rfl, rfl, rfl⟩ with ⟨p, hp⟩ | ⟨tok1, w1, e1, ⟨x1, x2, x3, x4, x5⟩, _, y2, y3, y4⟩
+  rcases literal_block_token sm1 hd a1 ind hind tail ht1 ht2 ls1 l b1 hl hl1 hls u1 u1.mark.line u1.mark.col u1.indent _ hI
+      ⟨hk1, hi1, rfl, rfl, rfl, rfl⟩ with ⟨p, hp⟩ | ⟨tok1, w1, e1, ⟨x1, x2, x3, x4, x5, _, _⟩, _, y2, y3, y4, _⟩
   · rw [hp] at h1; cases h1
-  rcases literal_block_token sm2 hd a2 ind hind tail ht1 ht2 ls2 l b2 hl hl1 hls2 u2 u2.mark.line u2.mark.col u2.indent
-      (by rw [← hind12]; exact hI) ⟨hk2, hi2, rfl, rfl, rfl⟩ with ⟨p, hp⟩ | ⟨tok2, w2, e2, ⟨z1, z2, z3, z4, z5⟩, _, q2, q3, q4⟩
+  rcases literal_block_token sm2 hd a2 ind hind tail ht1 ht2 ls2 l b2 hl hl1 hls2 u2 u2.mark.line u2.mark.col u2.indent _
+      (by rw [← hind12]; exact hI) ⟨hk2, hi2, rfl, rfl, rfl, rfl⟩ with ⟨p, hp⟩ | ⟨tok2, w2, e2, ⟨z1, z2, z3, z4, z5, _, _⟩, _, q2, q3, q4, _⟩
   · rw [hp] at h2; cases h2
   rw [e1] at h1; rw [e2] at h2
   cases h1; cases h2
